@@ -146,9 +146,11 @@ theorem C14_src_midpoint (a b : Fin 3) :
     | exact ⟨dec'_mid _ _, dec'_mid _ _⟩
 
 /-- the pins of the re-imported model: the exported names without a mapping; with the mode mapping every pin is kept, `TE`
-dropped from the name and `TM` renamed to `X` - each on its own matrix row -/
+dropped from the name and `TM` renamed to `X` - each on its own matrix row (which row is immaterial: the import enumerates the
+base names of a set) -/
 theorem C14_src_pins :
-    plain_pins = [("p_TE", 0), ("p_TM", 1), ("q_TE", 2)] ∧ mapped_pins = [("p", 0), ("p_X", 1), ("q", 2)] := by decide
+    plain_pins.map (·.1) = ["p_TE", "p_TM", "q_TE"] ∧ mapped_pins.map (·.1) = ["p", "p_X", "q"] ∧
+    (plain_pins.map (·.2)).Perm [0, 1, 2] ∧ (mapped_pins.map (·.2)).Perm [0, 1, 2] := by decide
 
 end Source
 
